@@ -32,6 +32,10 @@ type starVariant struct {
 	Reuse bool `json:"reuse_local"`
 	Auth  bool `json:"scmp_auth"`
 	BFD   bool `json:"bfd_on_odd_interfaces"`
+	// SvcChurn: services were registered and withdrawn again through the
+	// management API before the traffic starts (DS added and removed; a second
+	// CS instance added, the first removed).
+	SvcChurn bool `json:"svc_churn,omitempty"`
 }
 
 // newFuzzStar builds the configuration number v.Idx of the run
@@ -64,6 +68,20 @@ func newFuzzStar(r *mon.Run, v starVariant) *rfix.Star {
 	if err != nil {
 		fmt.Println("fixture error:", err)
 		panic(err)
+	}
+	if v.SvcChurn {
+		ds := netip.MustParseAddrPort("10.0.0.78:30254")
+		cs2 := netip.MustParseAddrPort("10.0.0.79:30252")
+		cs1 := netip.MustParseAddrPort("10.0.0.77:30252")
+		must := func(err error) {
+			if err != nil {
+				panic("fixture: service churn: " + err.Error())
+			}
+		}
+		must(s.C.AddSvc(cfg.IA, addr.SvcDS, addr.HostIP(ds.Addr()), ds.Port()))
+		must(s.C.DelSvc(cfg.IA, addr.SvcDS, addr.HostIP(ds.Addr()), ds.Port()))
+		must(s.C.AddSvc(cfg.IA, addr.SvcCS, addr.HostIP(cs2.Addr()), cs2.Port()))
+		must(s.C.DelSvc(cfg.IA, addr.SvcCS, addr.HostIP(cs1.Addr()), cs1.Port()))
 	}
 	return s
 }
